@@ -158,6 +158,17 @@ def check_map(comp, ref, relation, main_prog, files_of_macros, main_abs, source_
                 if pool is None or pos not in pool:
                     viols.append({"kind": "synthetic-macro-op-not-at-a-statement", "detail": {
                         **detail0, "op": f"{name}@{op.offset}", "entry": [macro.macro_name, mp.line, mp.column]}})
+                # an op the compiler adds on its own (the Return that closes a routine behind an expansion) and maps into a
+                # macro is an op of that expansion like any other: its return address lies behind it, and it is not the op
+                # that carries the call position unless it is the first op with an entry of this macro call
+                if not isinstance(macro.return_addr, int) or macro.return_addr <= op.offset:
+                    viols.append({"kind": "return-address-not-after-synthetic-op", "detail": {
+                        **detail0, "op": f"{name}@{op.offset}", "return_addr": macro.return_addr}})
+                elif macro.called_in is not None and any(
+                        (mp2 := sm.get_op_line_and_col__macros(o2.offset)) is not None and mp2.called_in is not None
+                        and tuple(mp2.called_in) == tuple(macro.called_in) and o2.offset != op.offset for o2 in all_ops):
+                    viols.append({"kind": "call-site-on-two-ops", "detail": {**detail0, "op": f"{name}@{op.offset}",
+                                                                             "called_in": list(macro.called_in)}})
             continue
         if len(exps) > 1:
             continue  # the same compiled op serves several expansions / contexts: cannot be attributed
@@ -274,6 +285,22 @@ def check_map(comp, ref, relation, main_prog, files_of_macros, main_abs, source_
     recorded |= {(m.name, m.x_offset, m.y_offset, m.x_relative, m.y_relative) for _, _, m in sm.get_position_marks__macros()}
     if recorded != emitted_marks:
         viols.append({"kind": "position-marks-differ", "detail": {**detail0, "recorded": sorted(recorded), "emitted": sorted(emitted_marks)}})
+    # one record per literal written as an argument in a routine of the compiled file (the same mark may be written twice)
+    import collections
+    written = collections.Counter()
+    for r in main_prog.routines:
+        if r.body is None:
+            continue
+        for st in A.walk_stmts(r.body):
+            if isinstance(st, (A.Op, A.MacroCall)):
+                for a in st.args:
+                    if isinstance(a, tuple) and a and a[0] == "p":
+                        written[tuple(a[1:])] += 1
+    direct = collections.Counter((m.name, m.x_offset, m.y_offset, m.x_relative, m.y_relative) for m in sm.get_position_marks__direct())
+    short = {k: (direct.get(k, 0), n) for k, n in written.items() if direct.get(k, 0) < n}
+    if short and not viols:
+        viols.append({"kind": "position-mark-literal-not-recorded", "detail": {
+            **detail0, "recorded_vs_written": {repr(k): list(v) for k, v in short.items()}}})
     return viols
 
 
